@@ -127,7 +127,7 @@ Definition observed_type (name : string) : vt :=
   | None => SUnknown
   end.
 
-Definition sim_right_operand (t form : string) : option (vt * bool) :=
+Definition sim_base_operand (t form : string) : option (vt * bool) :=
   if String.eqb form "lit" then
     if mem_str t ["INTEGER"; "FLOAT"; "STRING"; "BOOL"; "RTIME"; "BACKEND"; "ACL"] then Some (vt_of_name t, true) else None
   else if String.eqb form "local" then
@@ -137,6 +137,41 @@ Definition sim_right_operand (t form : string) : option (vt * bool) :=
     else if String.eqb t "header" then Some (SString, false)
     else Some (observed_type (predef_name t), false)
   else None.
+
+(* interpreter/subroutine.go convertValueToType: binding of an argument to a typed parameter and conversion of the
+   value returned by a functional subroutine: extra restrictions on top of assign.Assign *)
+Definition convert_ok (expected actual : vt) (lit : bool) : bool :=
+  if vt_eqb actual expected && negb lit then true
+  else
+    negb (match expected with
+          | SInteger => match actual with SFloat | SRTime | STime => true | _ => false end
+          | SFloat => match actual with SRTime | STime => true | _ => false end
+          | SRTime => match actual with SInteger | SFloat | STime => true | _ => false end
+          | STime => match actual with SInteger | SFloat | SRTime => true | _ => false end
+          | SIp => negb lit && vt_eqb actual SString
+          | _ => false
+          end)
+    && assign_ok expected actual lit.
+
+(* the value in one of the eight forms: (type, Literal flag, the binding at the call site succeeds).
+   convertValueToType gives the parameter a non-literal value of the declared type *)
+Definition sim_right_operand_ex (t form : string) : option (vt * bool * bool) :=
+  if mem_str form ["lit"; "local"; "predef"] then
+    match sim_base_operand t form with Some (a, l) => Some (a, l, true) | None => None end
+  else if mem_str form ["plit"; "plocal"; "ppredef"] then
+    if String.eqb t "header" then None
+    else match sim_base_operand t (param_base form) with
+         | Some (a, l) => Some (vt_of_name t, false, convert_ok (vt_of_name t) a l)
+         | None => None
+         end
+  else if String.eqb form "call" then
+    if String.eqb t "header" then None else Some (vt_of_name t, false, true)
+  else if String.eqb form "ifexp" then
+    match sim_base_operand t "local" with Some (a, _) => Some (a, false, true) | None => None end
+  else None.
+
+Definition sim_right_operand (t form : string) : option (vt * bool) :=
+  match sim_right_operand_ex t form with Some (a, l, _) => Some (a, l) | None => None end.
 
 (* ProcessSetStatement: a local target goes through LocalVariables.Set -> doAssign; a req.http.* target
    through AllScopeVariables.Set: a BACKEND literal is refused, "=" stores any value, a compound operator
@@ -156,8 +191,32 @@ Definition sim_compare_model (op lty : string) (r : vt) (lit : bool) : bool :=
 
 (* the simulator's decision on the one-statement program of an operator cell *)
 Definition interp_op_model (op lty rty form : string) : bool :=
-  match sim_right_operand rty form with
+  match sim_right_operand_ex rty form with
   | None => false
-  | Some (r, lit) =>
-    if mem_str op assign_ops then sim_set_model op lty r lit else sim_compare_model op lty r lit
+  | Some (r, lit, bound) =>
+    bound && (if mem_str op assign_ops then sim_set_model op lty r lit else sim_compare_model op lty r lit)
+  end.
+
+(* ---- a value where a type is expected.
+   arg: the generated wrapper of the built-in (stringifyVariableArguments for STRING positions) and its *_Validate
+        (exact type) - std.toupper for STRING, table.lookup_<type> / time.add for the other types;
+   ret: convertValueToType on the returned value; par: convertValueToType on the argument *)
+Definition sim_arg_ok (expected actual : vt) (lit : bool) : bool :=
+  match expected with
+  | SString =>
+    match actual with
+    | SString | SIp => true
+    | SAcl => false
+    | SBool => true
+    | _ => negb lit
+    end
+  | _ => vt_eqb expected actual
+  end.
+
+Definition interp_coerce_model (ctx e t form : string) : bool :=
+  match sim_right_operand_ex t form with
+  | None => false
+  | Some (a, lit, bound) =>
+    bound &&
+    (if String.eqb ctx "arg" then sim_arg_ok (vt_of_name e) a lit else convert_ok (vt_of_name e) a lit)
   end.
